@@ -209,7 +209,7 @@ var c04Modes = []uint32{0, 0644, 0755, 0600, 0777, 04755, 02755, 01777, 07777, 0
 
 func genC04(t *rapid.T) c04Case {
 	c := c04Case{Seed: rapid.Bool().Draw(t, "seeded")}
-	c.Cache = cacheCfg{AttrTTLns: pick(t, "ttl", int64(1), int64(3600e9)), AttrSize: pick(t, "asize", 2, 10000), DirCache: rapid.Bool().Draw(t, "dc"), Negative: rapid.Bool().Draw(t, "neg"), Conn: rapid.IntRange(0, 3).Draw(t, "conn") == 0, Verbose: rapid.IntRange(0, 5).Draw(t, "verbose") == 0}
+	c.Cache = cacheCfg{AttrTTLns: pick(t, "ttl", int64(1), int64(3600e9)), AttrSize: pick(t, "asize", 2, 10000), DirCache: rapid.Bool().Draw(t, "dc"), Negative: rapid.Bool().Draw(t, "neg"), Conn: rapid.IntRange(0, 3).Draw(t, "conn") == 0, Verbose: rapid.IntRange(0, 5).Draw(t, "verbose") == 0, Limits: rapid.IntRange(0, 5).Draw(t, "limits") == 0}
 	maxOps := 25
 	if thorough() {
 		maxOps = 40
